@@ -585,3 +585,56 @@ func replayPreload(n *Native, job *Job, v *Violation) (ReplayResult, bool) {
 	}
 	return res, true
 }
+
+const c19Pa = `{"frame": "Builtin", "class": "Pa", "instance_methods": [
+ {"name": "m", "arguments": [{"type": ["Int"]}], "return_type": {"type": ["Int"]}},
+ {"name": "m", "arguments": [{"type": ["String"]}], "return_type": {"type": ["String"]}},
+ {"name": "only_pa", "arguments": [{"type": ["Int"]}, {"type": ["DefaultString"]}], "return_type": {"type": ["Bool"]}}],
+ "class_methods": [{"name": "new", "arguments": [], "return_type": {"type": ["Pa"]}}]}`
+const c19Ch = `{"frame": "Builtin", "class": "Ch", "extends": ["Pa"], "instance_methods": [
+ {"name": "m", "arguments": [{"type": ["Symbol"]}], "return_type": {"type": ["Symbol"]}},
+ {"name": "k", "arguments": [], "return_type": {"type": ["Float"]}}],
+ "class_methods": [{"name": "new", "arguments": [], "return_type": {"type": ["Ch"]}}]}`
+const c19Gc = `{"frame": "Builtin", "class": "Gc", "extends": ["Ch"], "instance_methods": [],
+ "class_methods": [{"name": "new", "arguments": [], "return_type": {"type": ["Gc"]}}]}`
+
+// replayConfigOrder re-judges a C19 counterexample natively: the probe program under the job's
+// configuration plus the three reference files vs. plus the witnessed renamed / split files.
+func replayConfigOrder(n *Native, job *Job, v *Violation) (ReplayResult, bool) {
+	src, ok := v.Witness["src"]
+	filesW, ok2 := v.Witness["C19.files"]
+	if v.Kind != "assert" || !ok || !ok2 {
+		return ReplayResult{}, false
+	}
+	conc, okc := concretizeSym(src, v.Witness)
+	if !okc {
+		return ReplayResult{Observed: "cannot make the skeleton concrete"}, true
+	}
+	base := filepath.Join(configRoot(job.Config), ".ti-config")
+	mk := func(files map[string]string) string {
+		dir, _ := os.MkdirTemp(n.Dir, "cfg-c19-")
+		ents, _ := os.ReadDir(base)
+		for _, e := range ents {
+			if real, err := filepath.EvalSymlinks(filepath.Join(base, e.Name())); err == nil {
+				// the harness loads the generated files after the shipped ones: keep that order
+				os.Symlink(real, filepath.Join(dir, "0_"+e.Name()))
+			}
+		}
+		for name, c := range files {
+			os.WriteFile(filepath.Join(dir, "z_"+name), []byte(c), 0o644)
+		}
+		return dir
+	}
+	ref := mk(map[string]string{"a_pa.json": c19Pa, "b_ch.json": c19Ch, "c_gc.json": c19Gc})
+	other := map[string]string{}
+	for _, rec := range strings.Split(filesW, "\x1d") {
+		if parts := strings.SplitN(rec, "\x1e", 2); len(parts) == 2 {
+			other[parts[0]] = parts[1]
+		}
+	}
+	oth := mk(other)
+	outRef, _, _ := n.RunTi(map[string]string{"a.rb": conc}, []string{"./a.rb"}, ref)
+	outOth, _, _ := n.RunTi(map[string]string{"a.rb": conc}, []string{"./a.rb"}, oth)
+	return ReplayResult{Cmd: "ti ./a.rb under two layouts of the same declarations", Reproduced: outRef != outOth,
+		Observed: fmt.Sprintf("reference layout: %q; other layout: %q", outRef, outOth)}, true
+}
